@@ -1,5 +1,173 @@
 /-
-C11 — property theorems (stub: no theorem stated yet, so no obligation is counted).
+C11 — Decoders are total: any bytes give a value or an error, never a panic or a hang; a value that
+was returned without error can be passed to the library's accessors without a panic.
+PROPERTY THEOREMS ONLY.
+
+What is proved here, for ALL byte strings (no bound on length except where a Go `int32` in the format
+itself bounds it — stated explicitly), about the models of Hts.Model.Decoders, which mirror the Go
+code with the repairs fixes/C11-*.diff at indexing granularity (every index/slice/make/explicit panic
+of the modelled functions is a partial operation of the model):
+
+  D_total   : the decoder model never yields `panic`         (sam.atoi, sam.ParseCigar, sam.ParseAux
+              for every behaviour of strconv, bam.parseAux incl. termination of its loop)
+  A_safe    : a value the decoder model returned makes no accessor model yield `panic`
+              (CIGAR: Consumes/Lengths/End/Len/Bin/IsValid/String; aux: Tag/Type/Kind/Value/String
+              and the SAM formatter)
+
+The other decoders of the library (BGZF, BAM record layout, SAM line/header text, binary header,
+index readers, FAI, CRAM) are covered by the panic-site inventory + search only; see
+notes/reports/C11.md.
 -/
+import Hts.Lemmas.Decoders
 namespace Hts.Props.C11
+open Hts.Model.Decoders
+open Hts.Model.Decoders.Outcome (ok err)
+open Hts.Model.Coord (CigarOp)
+
+/-! ### sam.atoi, sam.ParseCigar -/
+
+/-- `sam.atoi` never panics (`powers[k-i]` stays inside the 13-entry table because longer inputs
+are rejected first) -/
+theorem atoi_total (b : Bytes) : (atoi b).isPanic = false := by
+  rcases atoi_spec b with h | ⟨r, h, _⟩ <;> rw [h] <;> rfl
+
+/-- what `atoi` returns is never negative, which is what keeps `NewCigarOp` from panicking -/
+theorem atoi_nonneg (b : Bytes) (n : Int) (h : atoi b = ok n) : 0 ≤ n := by
+  rcases atoi_spec b with h' | ⟨r, h', hr⟩
+  · rw [h'] at h; cases h
+  · rw [h'] at h; cases h; exact hr
+
+/-- `sam.ParseCigar` never panics, for every byte string: not in `atoi`, not in `NewCigarOp` (the
+operation-splitting loop is entered with `n ≥ 0` only), and a digit run without an operation is an
+error (repair fixes/C11-2) -/
+theorem parseCigar_total (b : Bytes) : (parseCigar b).isPanic = false := by
+  unfold parseCigar
+  split
+  · rfl
+  · exact parseOps_total b.length b [] (Nat.le_refl _)
+
+/-! ### CIGAR accessors: safe on EVERY CIGAR (so on every one ParseCigar or a BAM record yields) -/
+
+/-- `CigarOpType.Consumes` is total on all 2^32 operation words (repair fixes/C11-1) -/
+theorem consumes_total (t : Nat) : (consumesGo t).isPanic = false := by
+  rw [consumesGo_eq]; rfl
+
+/-- the two models of `Consumes` (this one with explicit indexing, Hts.Model.Coord's used by C16) agree -/
+theorem consumes_models_agree (t : Nat) : consumesGo t = ok v ↔ Hts.Model.Coord.consumes t = some v := by
+  rw [consumesGo_eq]
+  unfold Hts.Model.Coord.consumes
+  constructor
+  · intro h; cases h; rfl
+  · intro h; cases h; rfl
+
+/-- `CigarOpType.String` indexes `cigarOps` inside its 11 entries for every type -/
+theorem opString_total (t : Nat) : (opString t).isPanic = false := by
+  obtain ⟨c, h⟩ := Hts.Model.Decoders.opString_total t
+  rw [h]; rfl
+
+/-- `Cigar.IsValid`: `c[i-1]` and `c[i+1]` are only evaluated strictly inside the CIGAR -/
+theorem isValid_total (c : List CigarOp) (length : Int) : (cigarIsValidGo c length).isPanic = false :=
+  cigarIsValidGo_total c length
+
+/-- `Cigar.Lengths`, `Record.End`, `Record.Len`, `Record.Bin`, `Cigar.IsValid` (the models C16 proves
+correct on the standard operations) return a value for EVERY CIGAR, including operation types 10..15 -/
+theorem coord_accessors_total (u mu : Bool) (pos : Int) (c : List CigarOp) (length : Int) :
+    (Hts.Model.Coord.cigarLengths c).isSome ∧ (Hts.Model.Coord.recordEnd u pos c).isSome ∧
+    (Hts.Model.Coord.recordLen u pos c).isSome ∧ (Hts.Model.Coord.recordBin u mu pos c).isSome ∧
+    (Hts.Model.Coord.cigarIsValid c length).isSome := by
+  obtain ⟨v1, h1⟩ := Hts.Model.Coord.lengthsLoop_total c 0 0
+  obtain ⟨v2, h2⟩ := Hts.Model.Coord.recordEnd_total u pos c
+  obtain ⟨v3, h3⟩ := Hts.Model.Coord.isValidLoop_total c.length c 0 none 0 length
+  refine ⟨?_, ?_, ?_, ?_, ?_⟩
+  · unfold Hts.Model.Coord.cigarLengths; rw [h1]; rfl
+  · rw [h2]; rfl
+  · unfold Hts.Model.Coord.recordLen; rw [h2]; rfl
+  · unfold Hts.Model.Coord.recordBin; rw [h2]; rfl
+  · unfold Hts.Model.Coord.cigarIsValid; rw [h3]; rfl
+
+/-- A_safe for `ParseCigar`: whatever it returns can go through every CIGAR accessor -/
+theorem parseCigar_accessors_safe (b : Bytes) (c : List CigarOp) (_h : parseCigar b = ok c)
+    (u mu : Bool) (pos length : Int) :
+    (cigarIsValidGo c length).isPanic = false ∧ (∀ co ∈ c, (opString co.typ).isPanic = false ∧
+      (consumesGo co.typ).isPanic = false) ∧
+    (Hts.Model.Coord.recordEnd u pos c).isSome ∧ (Hts.Model.Coord.recordBin u mu pos c).isSome ∧
+    (Hts.Model.Coord.cigarLengths c).isSome :=
+  have hc := coord_accessors_total u mu pos c length
+  ⟨isValid_total c length, fun co _ => ⟨opString_total co.typ, consumes_total co.typ⟩, hc.2.1, hc.2.2.2.1, hc.1⟩
+
+/-! ### sam.ParseAux (text) -/
+
+/-- `sam.ParseAux` never panics, for every text and every behaviour of `strconv` (repair fixes/C11-3) -/
+theorem parseAux_total (P : Parsers) (text : Bytes) : (parseAux P text).isPanic = false := by
+  rcases parseAux_spec P text with h | ⟨a, h, _⟩ <;> rw [h] <;> rfl
+
+/-- A_safe for `ParseAux`: the field it returns is well formed, so `Tag`, `Type`, `Kind`, `Value`,
+`String` and the SAM formatter do not panic on it.  (A text below 2 GiB: beyond that an array could
+have 2^31 elements, which `Aux.Value` reads as a negative `int32`.) -/
+theorem parseAux_accessors_safe (P : Parsers) (text a : Bytes) (hlen : text.length < 2147483648)
+    (h : parseAux P text = ok a) : wfAux a = true ∧ auxSweep a = ok () := by
+  rcases parseAux_spec P text with h' | ⟨a', h', hw⟩
+  · rw [h'] at h; cases h
+  · rw [h'] at h; cases h
+    exact ⟨hw hlen, auxSweep_wf _ (hw hlen)⟩
+
+/-! ### bam.parseAux (the aux block of a BAM record) -/
+
+/-- `bam.parseAux` never panics and its loop terminates, for every aux block (repairs fixes/C11-7,
+C11-8, C11-9): every step consumes at least one byte, so `len(aux)+1` iterations always suffice
+(running out of fuel is a `panic` of the model) -/
+theorem parseAuxBam_total (aux : Bytes) : (parseAuxBam aux).isPanic = false := by
+  rcases parseAuxBam_spec aux with h | ⟨l, h, _⟩ <;> rw [h] <;> rfl
+
+/-- A_safe for `bam.parseAux`: every field it hands out is well formed (a BAM record is shorter than
+2^31 bytes: `block_size` is an `int32`), so no aux accessor panics on it -/
+theorem parseAuxBam_accessors_safe (aux : Bytes) (l : List Bytes) (hlen : aux.length < 2147483648)
+    (h : parseAuxBam aux = ok l) : ∀ a ∈ l, wfAux a = true ∧ auxSweep a = ok () := by
+  rcases parseAuxBam_spec aux with h' | ⟨l', h', hw⟩
+  · rw [h'] at h; cases h
+  · rw [h'] at h; cases h
+    intro a ha
+    exact ⟨hw hlen a ha, auxSweep_wf a (hw hlen a ha)⟩
+
+/-- the accessor sweep is safe on EVERY well-formed field (the link used by both decoders) -/
+theorem aux_accessors_safe (a : Bytes) (h : wfAux a = true) : (auxSweep a).isPanic = false := by
+  rw [auxSweep_wf a h]; rfl
+
+/-- and well-formedness is necessary in this sense: fields the unrepaired walker could hand out make
+the accessors panic (a two-byte field, an array with an unknown element type, an array whose count
+exceeds its bytes) -/
+theorem aux_accessors_witness :
+    (auxSweep [88, 0]).isPanic = true ∧ (auxSweep [88, 89, 66, 120, 0, 0, 0, 0]).isPanic = true ∧
+    (auxSweep [88, 89, 66, 115, 2, 0, 0, 0, 1, 2]).isPanic = true := by decide
+
+/-! ### non-vacuity (tests) -/
+
+/-- a parser instance: decimal digits only -/
+def digitsOnly : Parsers :=
+  { atoi := fun b => if b.all isDigit && !b.isEmpty then some (b.foldl (fun n c => n * 10 + (c.toNat - 48 : Nat)) (0 : Int)) else none
+    parseInt := fun _ b => if b.all isDigit && !b.isEmpty then some (b.foldl (fun n c => n * 10 + (c.toNat - 48 : Nat)) (0 : Int)) else none
+    parseUint := fun _ b => if b.all isDigit && !b.isEmpty then some (b.foldl (fun n c => n * 10 + (c.toNat - 48 : Nat)) (0 : Int)) else none
+    parseFloat32 := fun _ => none }
+
+-- "XY:i:300" ↦ XY S 0x012c
+example : parseAux digitsOnly [88, 89, 58, 105, 58, 51, 48, 48] = ok [88, 89, 83, 44, 1] := by decide
+-- "XY:B:s,1,2" ↦ XY B s 2 0 0 0 | 1 0 | 2 0
+example : parseAux digitsOnly [88, 89, 58, 66, 58, 115, 44, 49, 44, 50] = ok [88, 89, 66, 115, 2, 0, 0, 0, 1, 0, 2, 0] := by decide
+-- "XY:B:c" (the library's own rendering of an empty array) is an error, not a panic
+example : parseAux digitsOnly [88, 89, 58, 66, 58, 99] = err := by decide
+example : wfAux [88, 89, 66, 115, 2, 0, 0, 0, 1, 0, 2, 0] = true := by decide
+-- an aux block: XYC\x01  ZZZab\0  BBBc\x02\0\0\0\x07\x08
+example : parseAuxBam [88, 89, 67, 1, 90, 90, 90, 97, 98, 0, 66, 66, 66, 99, 2, 0, 0, 0, 7, 8] =
+    ok [[88, 89, 67, 1], [90, 90, 90, 97, 98], [66, 66, 66, 99, 2, 0, 0, 0, 7, 8]] := by decide
+-- truncated fixed-width value, array header, unknown array type, zero inside the tag: errors
+example : parseAuxBam [88, 89, 105, 1] = err := by decide
+example : parseAuxBam [88, 89, 66] = err := by decide
+example : parseAuxBam [88, 89] = ok [] := by decide
+example : parseAuxBam [88, 89, 66, 99, 1] = err := by decide
+example : parseAuxBam [88, 89, 66, 90, 8, 0, 0, 0] = err := by decide
+example : parseAuxBam [88, 0, 90, 1, 0] = err := by decide
+-- CIGAR operation types 11..15 (storable in BAM) go through End/Bin/IsValid
+example : Hts.Model.Coord.recordEnd false 100 [⟨0, 10⟩, ⟨13, 7⟩, ⟨2, 5⟩] = some 115 := by decide
+example : cigarIsValidGo [⟨5, 1⟩, ⟨4, 2⟩, ⟨0, 3⟩, ⟨4, 1⟩, ⟨5, 2⟩] 6 = ok true := by decide
+
 end Hts.Props.C11
